@@ -3,7 +3,8 @@
    parse_statement (render_decl d) = Ok (SDecl d). *)
 From Coq Require Import List NArith ZArith Bool Arith String Lia.
 From Shroud Require Import Base.Ustr Model.Splicer Model.Lexer Model.Expr Model.Decl Model.Render
-  Proof.Splicer Proof.Render Proof.LexComp Proof.RoundTrip.
+  Proof.Splicer Proof.Render Proof.LexComp Proof.ExprRT Proof.ExprLex.
+From Shroud Require Import Proof.RoundTrip.
 Import ListNotations.
 
 (* ---- the additional conditions on the words: what the lexer must see ---- *)
@@ -18,9 +19,9 @@ Definition type_wordb (w : ustr) : bool :=
   spec_wordb w || (forallb nameb (split_colons w) && ueqb (join_colons (split_colons w)) w).
 
 Fixpoint text_fragment (d : decl) : bool :=
-  let '(Decl spec _ _ _ _ dt params _ _ _ _ _) := d in
+  let '(Decl spec _ _ _ _ dt params arr _ _ _ _) := d in
   forallb type_wordb spec && match dt with Some x => text_dtorb x | None => true end &&
-  match params with Some ps => forallb text_fragment ps | None => true end.
+  match params with Some ps => forallb text_fragment ps | None => true end && forallb etext arr.
 
 Lemma spec_word_ok w : spec_wordb w = true -> wordb w = true /\ word_tok w = {| tk := TYPE_SPECIFIER; tv := w |}.
 Proof.
@@ -191,12 +192,31 @@ Definition par_text (params : option (list decl)) (fc : bool) : ustr :=
                (if fc then cp " const" else [])
   end.
 
-Lemma render_decl_eq spec cst vol tm dt params fc :
-  render_decl (Decl spec [] cst vol tm dt params [] [] AVNone [] fc) = hdr_text cst vol spec ++ dt_text dt ++ par_text params fc.
+Definition arr_text (arr : list expr) : ustr := List.concat (map (fun e => cp "[" ++ print_expr e ++ cp "]") arr).
+
+Lemma render_decl_eq spec cst vol tm dt params arr fc :
+  render_decl (Decl spec [] cst vol tm dt params arr [] AVNone [] fc) = hdr_text cst vol spec ++ dt_text dt ++ par_text params fc ++ arr_text arr.
 Proof.
-  cbn [render_decl]. unfold hdr_text, dt_text, par_text.
+  cbn [render_decl]. unfold hdr_text, dt_text, par_text, arr_text.
   change (truthy_str (attr_lookup "_destructor" [])) with (@None ustr). change (render_attrs []) with (@nil N).
-  cbn [map List.concat]. rewrite !app_nil_r. cbn [app]. rewrite <- !app_assoc. reflexivity.
+  rewrite !app_nil_r. cbn [app]. rewrite <- !app_assoc. reflexivity.
+Qed.
+
+Lemma any_brackets : Any [91%N] [lb_tok] /\ Any [93%N] [rb_tok].
+Proof.
+  split; intros r f Hf; (destruct f as [|f']; [cbn in Hf; lia|]); exists f'; (split; [cbn in Hf; lia | reflexivity]).
+Qed.
+
+Lemma arr_any : forall arr, forallb canon arr = true -> forallb etext arr = true -> Any (arr_text arr) (arr_toks arr).
+Proof.
+  induction arr as [|e arr IH]; intros Hc Ht; [apply any_nil|].
+  cbn [forallb] in *. apply andb_true_iff in Hc. destruct Hc as [Hce Hc]. apply andb_true_iff in Ht. destruct Ht as [Hte Ht].
+  unfold arr_text, arr_toks. cbn [map List.concat flat_map]. fold (arr_text arr). fold (arr_toks arr).
+  apply any_app; [| apply IH; assumption].
+  change (cp "[" ++ print_expr e ++ cp "]") with ([91%N] ++ (print_expr e ++ [93%N])).
+  change (lb_tok :: etoks e ++ [rb_tok]) with ([lb_tok] ++ (etoks e ++ [rb_tok])).
+  apply any_app; [apply any_brackets|].
+  apply weak2_any_app; [apply (text_of_expression (S (esize e))); [lia | exact Hce | exact Hte] | apply any_brackets | split; reflexivity].
 Qed.
 
 Lemma join_params : forall ps, ps <> [] -> (forall p, In p ps -> Weak (render_decl p) (decl_toks p)) ->
@@ -226,8 +246,9 @@ Lemma text_of_declaration c : forall n d, dsize d < n -> in_fragment c d = true 
 Proof.
   induction n as [|n IH]; intros d Hn Hfr Htx; [lia|].
   destruct d as [spec st cst vol tm dt params arr at_ init ta fc].
-  destruct (in_fragment_fields _ _ _ _ _ _ _ _ _ _ _ _ _ Hfr) as (Hs & -> & -> & -> & -> & -> & Hok & Hdt & Hpar).
-  cbn [text_fragment] in Htx. apply andb_true_iff in Htx. destruct Htx as [Htx Htp]. apply andb_true_iff in Htx. destruct Htx as [Hsw Htd].
+  destruct (in_fragment_fields _ _ _ _ _ _ _ _ _ _ _ _ _ Hfr) as (Hs & -> & Harr & -> & -> & -> & Hok & Hdt & Hpar).
+  cbn [text_fragment] in Htx. apply andb_true_iff in Htx. destruct Htx as [Htx Hta]. apply andb_true_iff in Htx. destruct Htx as [Htx Htp].
+  apply andb_true_iff in Htx. destruct Htx as [Hsw Htd].
   rewrite render_decl_eq, decl_toks_eq. cbn [dsize] in Hn.
   assert (Hshape : forallb spec_wordb spec = true \/ exists w, spec = [w] /\ spec_wordb w = false).
   { unfold spec_okb in Hok. destruct (named_type c spec) as [[id tm']|] eqn:En.
@@ -268,7 +289,16 @@ Proof.
       + rewrite Ex. exact not_alnum_32.
     - split; [exact Wpar | exact Spar]. }
   destruct Wrest as (Wrest & Srest).
-  apply weak_weak_app; [exact Whdr | exact Wrest | exact Srest].
+  (* ... followed by the array suffixes *)
+  assert (Wall : Weak ((dt_text dt ++ par_text params fc) ++ arr_text arr) ((dt_toks dt ++ par_toks params fc) ++ arr_toks arr) /\
+                 okstart ((dt_text dt ++ par_text params fc) ++ arr_text arr) ((dt_toks dt ++ par_toks params fc) ++ arr_toks arr)).
+  { destruct arr as [|e arr'].
+    - unfold arr_text, arr_toks. cbn [map List.concat flat_map]. rewrite !app_nil_r. split; assumption.
+    - split.
+      + apply weak_weak_app; [exact Wrest | apply any_weak; apply arr_any; assumption | reflexivity].
+      + destruct (dt_text dt ++ par_text params fc) as [|c0 s0] eqn:E0; [reflexivity | exact Srest]. }
+  destruct Wall as (Wall & Sall). rewrite <- !app_assoc in Wall, Sall.
+  apply weak_weak_app; [exact Whdr | exact Wall | exact Sall].
 Qed.
 
 (* ---- the theorems on text ---- *)
@@ -309,8 +339,10 @@ Lemma dsize_le_toks c : forall n d, dsize d < n -> in_fragment c d = true -> dsi
 Proof.
   induction n as [|n IH]; intros d Hn Hfr; [lia|].
   destruct d as [spec st cst vol tm dt params arr at_ init ta fc].
-  destruct (in_fragment_fields _ _ _ _ _ _ _ _ _ _ _ _ _ Hfr) as (Hs & -> & -> & -> & -> & -> & Hok & Hdt & Hpar).
+  destruct (in_fragment_fields _ _ _ _ _ _ _ _ _ _ _ _ _ Hfr) as (Hs & -> & Harr & -> & -> & -> & Hok & Hdt & Hpar).
   rewrite decl_toks_eq, !app_length. cbn [dsize] in *.
+  assert (Har : List.length arr <= List.length (arr_toks arr)).
+  { clear. unfold arr_toks. induction arr as [|e arr IH]; [cbn; lia|]. cbn [flat_map List.length]. rewrite app_length. cbn [List.length]. lia. }
   assert (Hh : spec_len spec <= List.length (head_toks cst vol spec) /\ 1 <= List.length (head_toks cst vol spec)).
   { destruct (head_first cst vol spec Hs) as (t0 & r0 & E0 & _).
     split; [| rewrite E0; cbn [List.length]; lia].
